@@ -26,7 +26,7 @@ ASSUMPTIONS = [
 ]
 BUDGET = {
     "quick": {"examples": 300, "workers": 8, "time_cap": 70},
-    "thorough": {"examples": 10000, "workers": 14, "time_cap": 1500},
+    "thorough": {"examples": 10000, "workers": 14, "time_cap": 900},
 }
 URLS = ["http://tracker.example/announce", "udp://t2.example:6969", "https://a.b/c?d=e&f=g", "http://h:1/a;b", "u", "wss://t/#frag"]
 
